@@ -8,6 +8,7 @@
 package c05
 
 import (
+	"k8s.io/apimachinery/pkg/runtime/schema"
 	"context"
 	"fmt"
 	"sort"
@@ -34,7 +35,14 @@ import (
 	"github.com/crossplane/crossplane/verif/xrh"
 )
 
-type resSpec struct{ ready, invalid bool }
+// reject: how the API server answers the apply of the resource: 0 accepted,
+// 1 Invalid (422), 2 NotFound (404: its namespace does not exist), 3 Forbidden (403).
+type resSpec struct {
+	ready  bool
+	reject int
+}
+
+var rejectKinds = 4
 
 type forge struct {
 	ctype  string // "" = none
@@ -65,8 +73,8 @@ func pipelineFn(p params, withForge bool) xrh.FunctionRunner {
 			d := &fnv1.State{Resources: map[string]*fnv1.Resource{}}
 			for i, rs := range p.res {
 				dr := xrh.DesiredResource(resNames[i], "p", rs.ready)
-				if rs.invalid {
-					dr.Resource.Fields["spec"].GetStructValue().Fields["invalid"] = structpb.NewBoolValue(true)
+				if rs.reject != 0 {
+					dr.Resource.Fields["spec"].GetStructValue().Fields["reject"] = structpb.NewNumberValue(float64(rs.reject))
 				}
 				d.Resources[resNames[i]] = dr
 			}
@@ -131,8 +139,14 @@ func invalidAdmission(op *simkube.AdmissionOp) error {
 	if op.New == nil || op.Verb == "DELETE" {
 		return nil
 	}
-	if inv, _, _ := unstructured.NestedBool(op.New.Object, "spec", "invalid"); inv {
-		return kerrors.NewInvalid(op.Key.GK(), op.Key.Name, field.ErrorList{field.Invalid(field.NewPath("spec", "invalid"), true, "rejected by validation")})
+	spec, _, _ := unstructured.NestedMap(op.New.Object, "spec")
+	switch fmt.Sprint(spec["reject"]) {
+	case "1":
+		return kerrors.NewInvalid(op.Key.GK(), op.Key.Name, field.ErrorList{field.Invalid(field.NewPath("spec", "reject"), 1, "rejected by validation")})
+	case "2":
+		return kerrors.NewNotFound(schema.GroupResource{Resource: "namespaces"}, "later")
+	case "3":
+		return kerrors.NewForbidden(schema.GroupResource{Group: op.Key.Group, Resource: strings.ToLower(op.Key.Kind) + "s"}, op.Key.Name, fmt.Errorf("denied by policy"))
 	}
 	return nil
 }
@@ -208,7 +222,7 @@ func pipelineBody(r *explore.Run, rep *report.R, sc string, maxRes int) {
 	p.forge = forges[r.Free(len(forges), "forge")]
 	n := r.Free(maxRes+1, "n")
 	for i := 0; i < n; i++ {
-		p.res = append(p.res, resSpec{ready: r.Bool(fmt.Sprintf("ready%d", i)), invalid: r.Bool(fmt.Sprintf("invalid%d", i))})
+		p.res = append(p.res, resSpec{ready: r.Bool(fmt.Sprintf("ready%d", i)), reject: r.Free(rejectKinds, fmt.Sprintf("apply-answer%d(ok,422,404,403)", i))})
 	}
 	p.xrReady = r.Free(3, "xrReady")
 	p.statusForge = r.Free(3, "statusForge")
@@ -224,7 +238,7 @@ func pipelineBody(r *explore.Run, rep *report.R, sc string, maxRes int) {
 	allReady, allApplied := true, true
 	for _, rs := range p.res {
 		allReady = allReady && rs.ready
-		allApplied = allApplied && !rs.invalid
+		allApplied = allApplied && rs.reject == 0
 	}
 	mayReady := !fatal && (p.xrReady == 1 || (p.xrReady == 0 && allReady))
 	maySynced := !fatal && allApplied
@@ -253,7 +267,14 @@ func pipelineBody(r *explore.Run, rep *report.R, sc string, maxRes int) {
 			r.Failf("xr/custom-not-unknown-after-fatal", "custom condition Custom was not re-asserted because of a fatal error but is %q, want Unknown (%s)", c.Status, p)
 		}
 	}
-	if p.forge.ctype == "Custom" && !(fatal && false) {
+	// (An apply answered 404 / 403 aborts the composition with an error: the
+	// results of the pipeline, custom conditions included, are not processed
+	// then, and the statement does not ask for it.)
+	composeAborted := false
+	for _, rs := range p.res {
+		composeAborted = composeAborted || rs.reject > 1
+	}
+	if p.forge.ctype == "Custom" && !composeAborted {
 		want := corev1.ConditionTrue
 		if p.forge.status == fnv1.Status_STATUS_CONDITION_FALSE {
 			want = corev1.ConditionFalse
@@ -281,7 +302,7 @@ func pipelineBody(r *explore.Run, rep *report.R, sc string, maxRes int) {
 type ptRes struct {
 	ready   bool // every readiness check satisfied
 	met     int  // bit 0: status.phase == Ready (first check), bit 1: status.id set (last check)
-	outcome int  // 0 applied, 1 rejected as invalid, 2 render failure (required patch source missing)
+	outcome int  // 0 applied, 1 rejected as invalid, 2 render failure (required patch source missing), 3 rejected 404, 4 rejected 403
 }
 
 func ptBody(r *explore.Run, rep *report.R, sc string) {
@@ -291,7 +312,7 @@ func ptBody(r *explore.Run, rep *report.R, sc string) {
 		// Two readiness checks per template; the provider may satisfy none,
 		// only the first, only the last, or both.
 		m := r.Free(4, fmt.Sprintf("readiness-checks-met%d", i))
-		rs = append(rs, ptRes{ready: m == 3, met: m, outcome: r.Free(3, fmt.Sprintf("outcome%d", i))})
+		rs = append(rs, ptRes{ready: m == 3, met: m, outcome: r.Free(5, fmt.Sprintf("outcome%d", i))})
 	}
 	initial := r.Free(2, "initial")
 	ssa := r.Bool("ssaClaim")
@@ -311,8 +332,8 @@ func ptBody(r *explore.Run, rep *report.R, sc string) {
 				{Type: v1.ReadinessCheckTypeMatchString, FieldPath: fp, MatchString: ms},
 				{Type: v1.ReadinessCheckTypeNonEmpty, FieldPath: "status.id"},
 			}
-			if x.outcome == 1 {
-				ct.Base.Raw = []byte(strings.Replace(string(ct.Base.Raw), `"fixed":"v"`, `"fixed":"v","invalid":true`, 1))
+			if rj := map[int]int{1: 1, 3: 2, 4: 3}[x.outcome]; rj != 0 {
+				ct.Base.Raw = []byte(strings.Replace(string(ct.Base.Raw), `"fixed":"v"`, fmt.Sprintf(`"fixed":"v","reject":%d`, rj), 1))
 			}
 		}
 		if x.outcome == 2 {
@@ -404,7 +425,7 @@ func ptBody(r *explore.Run, rep *report.R, sc string) {
 func TestCheck(t *testing.T) {
 	rep := report.New("C05", "exploration")
 	rep.Meta(
-		"Full product of: number of desired resources x per-resource (ready, apply rejected as invalid | render failure for P&T) x XR-level ready {unset,true,false} x one function condition of type {Ready,Synced,Healthy,Custom} x {True,False} x target {composite, composite+claim} (or none) x forged desired-XR status {none, status.conditions, status.claimConditionTypes} x fatal at step {none,1,2} x initial XR conditions x claim syncer; each case runs the real XR reconciler (3 reconciles) and the real claim reconciler twice over simkube, once with and once without the function-supplied conditions (differential oracle). Non-trivial: at least one desired resource or a forged condition; distinct by parameter tuple. Scenario claim-cache-lag: the XR's readiness history {ready then unready, unready then ready, steady} x the claim controller's cache 0..3 XR versions behind x claim syncer; every copy of the XR the claim reconcile is given (cached read, API server answers to its writes) is recorded, and a claim status write with Ready=True requires the most recent copy to be Ready=True.",
+		"Full product of: number of desired resources x per-resource (ready, apply answered ok | 422 Invalid | 404 NotFound (namespace missing) | 403 Forbidden | render failure for P&T) x XR-level ready {unset,true,false} x one function condition of type {Ready,Synced,Healthy,Custom} x {True,False} x target {composite, composite+claim} (or none) x forged desired-XR status {none, status.conditions, status.claimConditionTypes} x fatal at step {none,1,2} x initial XR conditions x claim syncer; each case runs the real XR reconciler (3 reconciles) and the real claim reconciler twice over simkube, once with and once without the function-supplied conditions (differential oracle). Non-trivial: at least one desired resource or a forged condition; distinct by parameter tuple. Scenario claim-cache-lag: the XR's readiness history {ready then unready, unready then ready, steady} x the claim controller's cache 0..3 XR versions behind x claim syncer; every copy of the XR the claim reconcile is given (cached read, API server answers to its writes) is recorded, and a claim status write with Ready=True requires the most recent copy to be Ready=True.",
 		[]string{"simkube models the API server; XR and claim kinds use the list types of the CRDs generated by internal/xcrd for server-side apply", "initial XR conditions never contain Ready=True or Synced=True, so a True condition after the run was reported by the run"},
 		[]string{"simkube", "structured-merge-diff (real)", "apiextensions-apiserver structural schema conversion"},
 	)
